@@ -14,12 +14,21 @@ from common import Rng, REPO
 PID = "C15"
 
 
-def gen_rules(r, n):
+def gen_rules(r, n, incdir=None):
     letters = [ord(c) for c in "abcdefgh"]
     cells = list(range(1, 64))
     rules, used = [], set()
     for _ in range(n):
         k = r.below(12)
+        if incdir is not None and r.chance(0.08):
+            # a rule that pulls in a whole (valid) file: it runs the file compiler with its own error accounting
+            k2 = r.below(6)
+            f = incdir / ("inc%d.uti" % k2)
+            if not f.exists():
+                f.write_text("sign %s %s\nalways %s%s %s\n" % (chr(0x2460 + k2), tablegen.dots_text(r.choice(cells)), chr(r.choice(letters)), chr(r.choice(letters)),
+                                                                 tablegen.dots_text(r.choice(cells))))
+            rules.append(("include %s" % f, True))
+            continue
         if k < 3:
             c = r.choice(letters + [ord(x) for x in "ijkl"] + [r.range(0x100, 0x400)])
             rules.append(("%s %s %s" % (r.choice(["letter", "lowercase", "punctuation", "sign"]), tablegen.char_text(c), tablegen.dots_text(r.choice(cells))), True))
@@ -62,7 +71,7 @@ def run(chk):
             entries, alphabet = tablegen.gen_c05_table(r)
             base.write_text(tablegen.table_text(entries))
         n = r.choice([0, 3, 10, 40, 200]) if not quick else r.choice([0, 3, 10, 40, 120])
-        rules = gen_rules(r, n)
+        rules = gen_rules(r, n, incdir=work)
         other = work / ("other%d.utb" % si)
         other.write_text("space \\s 0\nletter a 1\nletter b 12\n")
         inputs = [[r.choice([97, 98, 99, 100, 101, 102, 32, 46]) for _ in range(r.range(1, 16))] for _ in range(8)]
